@@ -131,7 +131,7 @@ def okAt (k : K) : Mic → Prop
   | .nfFence | .nfLdGate => inNotify k
   | .wkLock | .wkStGate _ | .wkStFlag | .wkUnlock _ | .wkUnpark => inNotify k ∨ k = .cl ∨ k = .dr
   | .rgLock | .rgStGate | .rgUnlock | .rgFence => k = .sL ∨ k = .rL
-  | .urLock | .urStGate | .urUnlock => k = .sOk ∨ k = .sClosed ∨ k = .rOk ∨ k = .rDisc
+  | .urLock | .urStGate | .urUnlock => k = .sOk ∨ k = .sClosed ∨ k = .rOk ∨ k = .rDisc ∨ k = .rTo
   | .park | .swapFlag | .spin => k = .sL ∨ k = .rL
   | .ldClosed => k = .sA ∨ k = .tS ∨ k = .rA ∨ k = .tR ∨ k = .toA
   | .ldDropped => k = .sA ∨ k = .sL ∨ k = .tS
@@ -145,7 +145,7 @@ def okAt (k : K) : Mic → Prop
 /-- the role a call site belongs to (`none`: either) -/
 def kSide : K → Option Role
   | .sA | .sL | .sOk | .sClosed | .tS => some .P
-  | .rA | .rL | .rL2 | .rOk | .rDisc | .tR | .tR2 | .toA | .toL | .toL2 => some .C
+  | .rA | .rL | .rL2 | .rOk | .rDisc | .rTo | .tR | .tR2 | .toA | .toL | .toL2 => some .C
   | _ => none
 
 structure CInv (s : State) : Prop where
